@@ -19,6 +19,7 @@ structure Call where
   sendFailed : Bool := false
   alive : Bool := false             -- `do_call` has not returned yet
   got : Option (Nat × Int) := none  -- response whose body was read into this call's buffer, and the byte count
+  full : Bool := false              -- the whole body announced by the header was received
   deriving Repr, Inhabited
 
 def upd {α} (f : Nat → α) (k : Nat) (v : α) : Nat → α := fun x => if x = k then v else f x
@@ -31,12 +32,13 @@ structure St where
   pending : Option (Nat × Nat × Nat) := none     -- (reader, response, tag): header read, body not yet collected
   reading : Option (Nat × Nat) := none           -- (reader, call): a body read into that call's buffer is in progress
   hdrs : List (Nat × Nat) := []                  -- history: (response, tag) of every header read
+  psize : Nat := 0                               -- body size announced by the pending header
   closed : Bool := false
 
 inductive Ev where
   | call (t k : Nat) (to : Option Nat)
   | sent (t tag k : Nat) (ok : Bool)
-  | hdr (t rid tag : Nat) (ok : Bool)
+  | hdr (t rid tag size : Nat) (ok : Bool)
   | bodyBegin (t k : Nat)
   | bodyEnd (t rid k : Nat) (r : Int)
   | intr (target by_ : Nat)
@@ -98,8 +100,8 @@ def preHdr (s : St) (t rid : Nat) (ok : Bool) : Option String :=
     else if s.reading.isSome then some "header read while a body read is in progress"
     else if ok ∧ s.hdrs.any (·.1 == rid) then some "the same response was read twice"
     else none
-def effHdr (s : St) (t rid tag : Nat) (ok : Bool) : St :=
-  if ok then { s with pending := some (t, rid, tag), hdrs := s.hdrs ++ [(rid, tag)] } else s
+def effHdr (s : St) (t rid tag size : Nat) (ok : Bool) : St :=
+  if ok then { s with pending := some (t, rid, tag), hdrs := s.hdrs ++ [(rid, tag)], psize := size } else s
 
 def preBodyBegin (s : St) (t k : Nat) : Option String :=
   match s.pending with
@@ -124,7 +126,8 @@ def preBodyEnd (s : St) (t rid k : Nat) (r : Int) : Option String :=
     else none
 def effBodyEnd (s : St) (k : Nat) (r : Int) : St :=
   match s.pending with
-  | some (_, prid, _) => { s with call := upd s.call k { s.call k with got := some (prid, r) }, pending := none, reading := none }
+  | some (_, prid, _) => { s with call := upd s.call k { s.call k with got := some (prid, r), full := decide (r = (s.psize : Int)) },
+                                  pending := none, reading := none }
   | none => s
 
 def preIntr (s : St) (target : Nat) : Option String :=
@@ -144,6 +147,7 @@ def preRet (s : St) (t k : Nat) (r : Int) (content : Option Nat) : Option String
     | none => some "call reported success but no response was collected for it"
     | some (rid, n) =>
       if n ≠ r then some "call reported a byte count different from the collected body"
+      else if !c.full then some "call reported success although only a part of the response body was received"
       else if 0 < r ∧ content ≠ some rid then some "call reported success but its buffer does not hold its own response"
       else none
   else
@@ -171,7 +175,7 @@ def pre (s : St) (e : Ev) : Option String :=
   match e with
   | .call t k _ => preCall s t k
   | .sent t tag k ok => preSent s t tag k ok
-  | .hdr t rid _ ok => preHdr s t rid ok
+  | .hdr t rid _ _ ok => preHdr s t rid ok
   | .bodyBegin t k => preBodyBegin s t k
   | .bodyEnd t rid k r => preBodyEnd s t rid k r
   | .intr target _ => preIntr s target
@@ -186,7 +190,7 @@ def eff (s : St) (e : Ev) : St :=
   match e with
   | .call t k to => effCall s t k to
   | .sent _ tag k ok => effSent s tag k ok
-  | .hdr t rid tag ok => effHdr s t rid tag ok
+  | .hdr t rid tag size ok => effHdr s t rid tag size ok
   | .bodyBegin t k => effBodyBegin s t k
   | .bodyEnd _ _ k r => effBodyEnd s k r
   | .intr _ _ => s
